@@ -238,6 +238,33 @@ def std_cfg(wd, name, **kw):
 
 MON_CFG = SPEC + "/Mon.cfg"
 
+
+def regression_jobs(prop, kind):
+    """The recorded failing runs of the defects repaired so far for `prop` (known_findings.json, entries `fixed:`): they
+    are replayed in every run of the check, so that a repaired defect that returns is reported again by the very history
+    that exposed it."""
+    out = []
+    try:
+        with open(ROOT + "/known_findings.json") as f:
+            kf = json.load(f)
+    except OSError:
+        return out
+    seen = set()
+    for e in kf.get("fixed", []):
+        if e.get("property") != prop or e.get("replay") in seen:
+            continue
+        seen.add(e.get("replay"))
+        try:
+            with open(ROOT + "/" + e["replay"]) as f:
+                rp = json.load(f)["replay"]
+        except (OSError, KeyError, ValueError):
+            continue
+        if rp.get("kind") == kind and "job" in rp:
+            j = dict(rp["job"])
+            j["id"] = f"regress.{e['commit']}.{len(out)}"
+            out.append(j)
+    return out
+
 # ----------------------------------------------------------------------------
 # known findings
 
